@@ -90,3 +90,57 @@ def _install():
 
 
 _install()
+
+
+def rows(L):
+    """The plain sequence of row dicts of a reamber list (oracle view of C16)."""
+    return L.df.to_dict("records")
+
+
+def labels(L):
+    return L.df.index.tolist()
+
+
+def columns(L):
+    return L.df.columns.tolist()
+
+
+def _row_key(r):
+    return tuple(sorted((k, repr(v)) for k, v in r.items()))
+
+
+def same_multiset(xs, ys):
+    """xs is a permutation of ys (rows compared field by field)."""
+    return sorted(map(_row_key, xs)) == sorted(map(_row_key, ys))
+
+
+def nondecreasing(vals):
+    return all(a <= b for a, b in zip(vals[:-1], vals[1:]))
+
+
+def nonincreasing(vals):
+    return all(a >= b for a, b in zip(vals[:-1], vals[1:]))
+
+
+def _install2():
+    import itertools
+    import z3
+    from . import lib
+    from .engine import _conj, _disj, to_z3
+
+    @lib.handler(same_multiset)
+    def h_same_multiset(it, xs, ys):
+        xs, ys = list(xs), list(ys)
+        if len(xs) != len(ys):
+            return False
+        if len(xs) > 4:
+            from .engine import Undecided
+
+            raise Undecided("same_multiset beyond 4 rows")
+        alts = []
+        for perm in itertools.permutations(range(len(ys))):
+            alts.append(_conj([it.truthy(it.equals(xs[i], ys[p])) for i, p in enumerate(perm)]))
+        return _disj(alts)
+
+
+_install2()
